@@ -294,6 +294,7 @@ func scalarAllocOK(a *ssa.Alloc) bool {
 // store dominates the load and no other store can intervene. Otherwise returns v unchanged.
 func deref(v ssa.Value) ssa.Value {
 	for i := 0; i < 6; i++ {
+		v = canonPhi(v)
 		ld, ok := v.(*ssa.UnOp)
 		if !ok || ld.Op != token.MUL {
 			return v
